@@ -14,6 +14,8 @@
 //!   frame    LengthDelimitedCodec v1/v2, compression on/off, every network::Message variant, every
 //!            optional field both ways, frame limits around the encoded size, direct and streamed
 //!   tcpcomp  tcp::compression methods, flags, Handshake
+//!   validate the validation layer for decoded messages (message_validation.rs): boundary values in
+//!            every numeric field x three sets of limits; no panic, documented limits enforced
 //!   tt       tensor-train presets within their documented relative error on inputs whose TT-rank is
 //!            below max_rank (rank-capped results are inconclusive)
 //!
@@ -1780,6 +1782,283 @@ fn part_tt(case_seed: u64, r: &mut Report) {
 }
 
 // ------------------------------------------------------------------------------------------------
+// part: validate — the validation layer that decoded network messages pass through
+// (tensor_chain/src/message_validation.rs): boundary values in every numeric field, several
+// configured limits; the validator must answer Ok/Err without panicking, and what its documented
+// limits exclude must be rejected
+// ------------------------------------------------------------------------------------------------
+
+fn validation_config(kind: usize) -> (MessageValidationConfig, &'static str) {
+    match kind % 3 {
+        0 => (MessageValidationConfig::default(), "default"),
+        1 => (
+            MessageValidationConfig {
+                enabled: true,
+                max_term: 7,
+                max_shard_id: 3,
+                max_tx_timeout_ms: 10,
+                max_node_id_len: 4,
+                max_key_len: 8,
+                max_embedding_dimension: 8,
+                max_embedding_magnitude: 10.0,
+                max_query_len: 5,
+                max_message_age_ms: 1000,
+                max_blocks_per_request: 3,
+                max_snapshot_chunk_size: 16,
+            },
+            "tight",
+        ),
+        _ => (
+            MessageValidationConfig {
+                enabled: true,
+                max_term: u64::MAX,
+                max_shard_id: usize::MAX,
+                max_tx_timeout_ms: u64::MAX,
+                max_node_id_len: usize::MAX,
+                max_key_len: usize::MAX,
+                max_embedding_dimension: usize::MAX,
+                max_embedding_magnitude: f32::MAX,
+                max_query_len: usize::MAX,
+                max_message_age_ms: u64::MAX,
+                max_blocks_per_request: u64::MAX,
+                max_snapshot_chunk_size: u64::MAX,
+            },
+            "unlimited",
+        ),
+    }
+}
+
+/// boundary values of an unsigned field around 0, the type's maximum and the configured limits
+fn b_u64(rng: &mut Rng, limits: &[u64]) -> u64 {
+    let mut c: Vec<u64> = vec![0, 1, 2, u64::MAX - 1, u64::MAX, 1 << 32, 1 << 63];
+    for &l in limits {
+        c.extend_from_slice(&[l.wrapping_sub(1), l, l.wrapping_add(1)]);
+    }
+    if rng.chance(1, 8) {
+        rng.next_u64() >> rng.below(64)
+    } else {
+        *rng.pick(&c)
+    }
+}
+fn b_node(rng: &mut Rng, cfg: &MessageValidationConfig) -> String {
+    let l = cfg.max_node_id_len.min(300);
+    match rng.below(6) {
+        0 => String::new(),
+        1 => "x".repeat(l),
+        2 => "x".repeat(l + 1),
+        3 => "x".repeat(l.saturating_sub(1)),
+        4 => "é".repeat(l / 2 + 1),
+        _ => "n1".to_string(),
+    }
+}
+fn b_embedding(rng: &mut Rng, cfg: &MessageValidationConfig) -> SparseVector {
+    let d = cfg.max_embedding_dimension.min(70_000);
+    let dim = *rng.pick(&[0usize, 1, d.saturating_sub(1), d, d + 1, tensor_store::SPARSE_MAX_DIMENSION]);
+    if dim == 0 {
+        return SparseVector::new(0);
+    }
+    let vals = [1.0f32, -1.0, cfg.max_embedding_magnitude, cfg.max_embedding_magnitude * 0.99, f32::MAX, f32::INFINITY, f32::NAN, 1e-30];
+    let mut pos: BTreeSet<u32> = BTreeSet::new();
+    for _ in 0..rng.below(4) {
+        pos.insert(*rng.pick(&[0u32, (dim - 1) as u32, (dim / 2) as u32]));
+    }
+    let positions: Vec<u32> = pos.into_iter().collect();
+    let values: Vec<f32> = positions.iter().map(|_| *rng.pick(&vals)).collect();
+    SparseVector::from_parts(dim, positions, values)
+}
+
+/// What the documented limits of the validator exclude (module documentation "Validation Checks"
+/// and the limit fields of `MessageValidationConfig`). `None` = nothing here demands a rejection.
+fn must_reject(m: &Message, from: &str, c: &MessageValidationConfig) -> Option<String> {
+    let node = |s: &str, f: &str| -> Option<String> {
+        if s.is_empty() {
+            Some(format!("{} is empty", f))
+        } else if s.len() > c.max_node_id_len {
+            Some(format!("{} longer than max_node_id_len", f))
+        } else {
+            None
+        }
+    };
+    let term = |t: u64| -> Option<String> { if t == 0 || t > c.max_term { Some(format!("term {} outside 1..={}", t, c.max_term)) } else { None } };
+    let shard = |s: usize| -> Option<String> { if s >= c.max_shard_id { Some(format!("shard_id {} >= {}", s, c.max_shard_id)) } else { None } };
+    let timeout = |t: u64| -> Option<String> { if t == 0 || t > c.max_tx_timeout_ms { Some(format!("timeout_ms {} outside 1..={}", t, c.max_tx_timeout_ms)) } else { None } };
+    let nonzero = |x: u64, f: &str| -> Option<String> { if x == 0 { Some(format!("{} is 0", f)) } else { None } };
+    let emb = |e: &SparseVector, f: &str| -> Option<String> {
+        if e.dimension() == 0 || e.dimension() > c.max_embedding_dimension {
+            Some(format!("{} dimension {} outside 1..={}", f, e.dimension(), c.max_embedding_dimension))
+        } else if e.values().iter().any(|v| !v.is_finite()) {
+            Some(format!("{} holds NaN/Inf", f))
+        } else {
+            None
+        }
+    };
+    if let Some(w) = node(from, "from") {
+        return Some(w);
+    }
+    match m {
+        Message::RequestVote(x) => term(x.term).or_else(|| node(&x.candidate_id, "candidate_id")).or_else(|| emb(&x.state_embedding, "state_embedding")),
+        Message::PreVote(x) => term(x.term).or_else(|| node(&x.candidate_id, "candidate_id")).or_else(|| emb(&x.state_embedding, "state_embedding")),
+        Message::RequestVoteResponse(x) => term(x.term).or_else(|| node(&x.voter_id, "voter_id")),
+        Message::PreVoteResponse(x) => term(x.term).or_else(|| node(&x.voter_id, "voter_id")),
+        Message::AppendEntries(x) => term(x.term).or_else(|| node(&x.leader_id, "leader_id")).or_else(|| x.block_embedding.as_ref().and_then(|e| emb(e, "block_embedding"))),
+        Message::AppendEntriesResponse(x) => term(x.term).or_else(|| node(&x.follower_id, "follower_id")),
+        Message::Ping { term: t } | Message::Pong { term: t } => term(*t),
+        Message::BlockRequest(x) => node(&x.requester_id, "requester_id").or_else(|| {
+            if x.to_height < x.from_height {
+                Some(format!("to_height {} < from_height {}", x.to_height, x.from_height))
+            } else {
+                let count = x.to_height as u128 - x.from_height as u128 + 1;
+                // (a limit of u64::MAX is "no limit": 2^64 blocks is the only count above it)
+                if c.max_blocks_per_request < u64::MAX && count > c.max_blocks_per_request as u128 {
+                    Some(format!("range {}..={} = {} blocks > max_blocks_per_request {}", x.from_height, x.to_height, count, c.max_blocks_per_request))
+                } else {
+                    None
+                }
+            }
+        }),
+        Message::SnapshotRequest(x) => node(&x.requester_id, "requester_id").or_else(|| if x.chunk_size == 0 || x.chunk_size > c.max_snapshot_chunk_size { Some(format!("chunk_size {} outside 1..={}", x.chunk_size, c.max_snapshot_chunk_size)) } else { None }),
+        Message::TxPrepare(x) => nonzero(x.tx_id, "tx_id").or_else(|| node(&x.coordinator, "coordinator")).or_else(|| shard(x.shard_id)).or_else(|| timeout(x.timeout_ms)).or_else(|| emb(&x.delta_embedding, "delta_embedding")),
+        Message::TxPrepareResponse(x) => nonzero(x.tx_id, "tx_id").or_else(|| shard(x.shard_id)),
+        Message::TxCommit(x) => nonzero(x.tx_id, "tx_id").or_else(|| x.shards.iter().find_map(|&s| shard(s))),
+        Message::TxAbort(x) => nonzero(x.tx_id, "tx_id").or_else(|| x.shards.iter().find_map(|&s| shard(s))),
+        Message::TxAck(x) => nonzero(x.tx_id, "tx_id").or_else(|| shard(x.shard_id)),
+        Message::QueryRequest(x) => nonzero(x.query_id, "query_id")
+            .or_else(|| shard(x.shard_id))
+            .or_else(|| timeout(x.timeout_ms))
+            .or_else(|| if x.query.len() > c.max_query_len { Some(format!("query length {} > {}", x.query.len(), c.max_query_len)) } else { None })
+            .or_else(|| x.embedding.as_ref().and_then(|e| emb(e, "embedding"))),
+        Message::QueryResponse(x) => nonzero(x.query_id, "query_id").or_else(|| shard(x.shard_id)),
+        Message::SignedGossip(x) => {
+            if x.envelope.signature.len() != 64 {
+                Some("signature length != 64".into())
+            } else {
+                node(&x.envelope.sender, "sender")
+            }
+        }
+        _ => None,
+    }
+}
+
+const VALIDATED_VARIANTS: usize = 19;
+
+fn b_message(rng: &mut Rng, variant: usize, c: &MessageValidationConfig) -> Message {
+    let t = |rng: &mut Rng| b_u64(rng, &[c.max_term]);
+    let sh = |rng: &mut Rng| b_u64(rng, &[c.max_shard_id as u64]) as usize;
+    let to = |rng: &mut Rng| b_u64(rng, &[c.max_tx_timeout_ms]);
+    match variant % VALIDATED_VARIANTS {
+        0 => Message::RequestVote(RequestVote { term: t(rng), candidate_id: b_node(rng, c), last_log_index: b_u64(rng, &[]), last_log_term: b_u64(rng, &[]), state_embedding: b_embedding(rng, c) }),
+        1 => Message::RequestVoteResponse(RequestVoteResponse { term: t(rng), vote_granted: rng.bool(), voter_id: b_node(rng, c) }),
+        2 => Message::PreVote(PreVote { term: t(rng), candidate_id: b_node(rng, c), last_log_index: b_u64(rng, &[]), last_log_term: b_u64(rng, &[]), state_embedding: b_embedding(rng, c) }),
+        3 => Message::PreVoteResponse(PreVoteResponse { term: t(rng), vote_granted: rng.bool(), voter_id: b_node(rng, c) }),
+        4 => Message::AppendEntries(AppendEntries {
+            term: t(rng),
+            leader_id: b_node(rng, c),
+            prev_log_index: b_u64(rng, &[]),
+            prev_log_term: b_u64(rng, &[]),
+            entries: vec![],
+            leader_commit: b_u64(rng, &[]),
+            block_embedding: if rng.bool() { Some(b_embedding(rng, c)) } else { None },
+        }),
+        5 => Message::AppendEntriesResponse(AppendEntriesResponse { term: t(rng), success: rng.bool(), follower_id: b_node(rng, c), match_index: b_u64(rng, &[]), used_fast_path: rng.bool() }),
+        6 => Message::Ping { term: t(rng) },
+        7 => Message::Pong { term: t(rng) },
+        8 | 9 => {
+            // height pairs: every combination of the boundary values, including (0, MAX), (MAX, MAX),
+            // (MAX, 0) and ranges of exactly limit-1 / limit / limit+1 blocks at both ends of u64
+            let l = c.max_blocks_per_request;
+            let hs = [0u64, 1, l.wrapping_sub(2), l.wrapping_sub(1), l, l.wrapping_add(1), u64::MAX.wrapping_sub(l), u64::MAX.wrapping_sub(l).wrapping_add(1), u64::MAX.wrapping_sub(l).wrapping_add(2), u64::MAX - 1, u64::MAX];
+            let k = rng.below(hs.len() * hs.len());
+            let requester_id = if rng.chance(1, 6) { b_node(rng, c) } else { "n1".to_string() };
+            Message::BlockRequest(BlockRequest { from_height: hs[k / hs.len()], to_height: hs[k % hs.len()], requester_id })
+        }
+        10 => {
+            let requester_id = if rng.chance(1, 6) { b_node(rng, c) } else { "n1".to_string() };
+            Message::SnapshotRequest(SnapshotRequest { requester_id, offset: b_u64(rng, &[]), chunk_size: b_u64(rng, &[c.max_snapshot_chunk_size]) })
+        }
+        11 => Message::TxPrepare(TxPrepareMsg { tx_id: b_u64(rng, &[]), coordinator: b_node(rng, c), shard_id: sh(rng), operations: vec![], delta_embedding: b_embedding(rng, c), timeout_ms: to(rng) }),
+        12 => Message::TxPrepareResponse(TxPrepareResponseMsg { tx_id: b_u64(rng, &[]), shard_id: sh(rng), vote: TxVote::No { reason: String::new() } }),
+        13 => Message::TxCommit(TxCommitMsg { tx_id: b_u64(rng, &[]), shards: g_vec(rng, 4, |r| b_u64(r, &[c.max_shard_id as u64]) as usize) }),
+        14 => Message::TxAbort(TxAbortMsg { tx_id: b_u64(rng, &[]), reason: String::new(), shards: g_vec(rng, 4, |r| b_u64(r, &[c.max_shard_id as u64]) as usize) }),
+        15 => Message::TxAck(TxAckMsg { tx_id: b_u64(rng, &[]), shard_id: sh(rng), success: rng.bool(), error: None }),
+        16 => {
+            let ql = c.max_query_len.min(2000);
+            let query = "q".repeat(*rng.pick(&[0usize, 1, ql.saturating_sub(1), ql, ql + 1]));
+            Message::QueryRequest(QueryRequest { query_id: b_u64(rng, &[]), query, shard_id: sh(rng), embedding: if rng.bool() { Some(b_embedding(rng, c)) } else { None }, timeout_ms: to(rng) })
+        }
+        17 => Message::QueryResponse(QueryResponse { query_id: b_u64(rng, &[]), shard_id: sh(rng), result: vec![], execution_time_us: b_u64(rng, &[]), success: rng.bool(), error: None }),
+        _ => {
+            let now = now_ms();
+            let a = c.max_message_age_ms;
+            let ts = *rng.pick(&[0u64, 1, now, now.wrapping_sub(a), now.wrapping_sub(a).wrapping_sub(5000), now.wrapping_sub(a).wrapping_add(5000), now + 50_000, now + 70_000, u64::MAX - 1, u64::MAX, u64::MAX - a.min(u64::MAX - 1)]);
+            Message::SignedGossip(SignedGossipMessage {
+                envelope: SignedMessage { sender: b_node(rng, c), public_key: g_hash(rng), payload: g_bytes(rng, 40), signature: vec![7u8; *rng.pick(&[0usize, 63, 64, 64, 64, 65])], sequence: b_u64(rng, &[]), timestamp_ms: ts },
+            })
+        }
+    }
+}
+
+fn part_validate(case_index: u64, case_seed: u64, r: &mut Report) {
+    let mut rng = Rng::new(case_seed);
+    let replay = json!({"part": "validate", "case": case_index, "case_seed": case_seed});
+    let (cfg, cname) = validation_config((case_index / VALIDATED_VARIANTS as u64) as usize);
+    let validator = CompositeValidator::new(cfg.clone());
+    let codec = LengthDelimitedCodec::new(16 * 1024 * 1024);
+    let variant = case_index as usize % VALIDATED_VARIANTS;
+    let mut h = 0u64;
+    for _ in 0..24 {
+        let sent = b_message(&mut rng, variant, &cfg);
+        // what the validator sees in production is the decoded message
+        let msg = match codec.encode(&sent).and_then(|f| codec.decode_payload(&f[4..])) {
+            Ok(m) => m,
+            Err(e) => {
+                // (a sparse vector that the decoder refuses never reaches the validator)
+                r.count("validate:not-decodable", 1);
+                let _ = e;
+                continue;
+            }
+        };
+        let from = if rng.chance(1, 10) { b_node(&mut rng, &cfg) } else { "peer".to_string() };
+        let shown: String = format!("{:?}", msg).chars().take(400).collect();
+        let (res, _) = measured(|| validator.validate(&msg, &from).map_err(|e| e.to_string()));
+        r.count("validate:messages", 1);
+        match res {
+            Err(p) => {
+                r.violation(
+                    format!("validate:panic:{}:{}", msg.type_name(), first_line(&p)),
+                    format!("CompositeValidator::validate panicked on a decoded {} under the {} limits: {} — message {}", msg.type_name(), cname, p, shown),
+                    replay,
+                );
+                return;
+            }
+            Ok(Ok(())) => {
+                r.count("validate:accepted", 1);
+                if let Some(why) = must_reject(&msg, &from, &cfg) {
+                    r.violation(
+                        format!("validate:accepted-beyond-documented-limit:{}", msg.type_name()),
+                        format!("validate returned Ok under the {} limits although {} — message {}", cname, why, shown),
+                        replay,
+                    );
+                    return;
+                }
+            }
+            Ok(Err(_)) => {
+                r.count("validate:rejected", 1);
+                if must_reject(&msg, &from, &cfg).is_some() {
+                    r.count("validate:rejected-as-documented", 1);
+                }
+            }
+        }
+        h = hash_combine(h, hash_str(&shown));
+    }
+    r.count(&format!("validate[{}:{}]", ["RequestVote", "RequestVoteResponse", "PreVote", "PreVoteResponse", "AppendEntries", "AppendEntriesResponse", "Ping", "Pong", "BlockRequest", "BlockRequest", "SnapshotRequest", "TxPrepare", "TxPrepareResponse", "TxCommit", "TxAbort", "TxAck", "QueryRequest", "QueryResponse", "SignedGossip"][variant], cname), 1);
+    r.eval(h, true);
+    if r.want_sample() && variant == 8 {
+        let m = b_message(&mut rng, 8, &cfg);
+        r.sample(json!({"part": "validate", "limits": cname, "message": format!("{:?}", m), "verdict": format!("{:?}", validator.validate(&m, &"peer".to_string()).map_err(|e| e.to_string()))}));
+    }
+}
+
+// ------------------------------------------------------------------------------------------------
 // garbage parts
 // ------------------------------------------------------------------------------------------------
 
@@ -2557,6 +2836,7 @@ const PARTS: &[PartSpec] = &[
     PartSpec { name: "frame", evals_counter: "evals:frame", quick: 13200, thorough: 660000, budget_q: 15, budget_t: 180, floor: 1_000, garbage: false, chunk: 0 },
     PartSpec { name: "tcpcomp", evals_counter: "evals:tcpcomp", quick: 1600, thorough: 16000, budget_q: 10, budget_t: 120, floor: 100, garbage: false, chunk: 0 },
     PartSpec { name: "tt", evals_counter: "evals:tt", quick: 1500, thorough: 40000, budget_q: 15, budget_t: 180, floor: 60, garbage: false, chunk: 0 },
+    PartSpec { name: "validate", evals_counter: "evals:validate", quick: 2850, thorough: 114_000, budget_q: 8, budget_t: 90, floor: 300, garbage: false, chunk: 0 },
     PartSpec { name: "g-ids", evals_counter: "evals:g-ids", quick: 2500, thorough: 80000, budget_q: 25, budget_t: 400, floor: 60, garbage: true, chunk: 250 },
     PartSpec { name: "g-rle", evals_counter: "evals:g-rle", quick: 1200, thorough: 40000, budget_q: 25, budget_t: 400, floor: 40, garbage: true, chunk: 100 },
     PartSpec { name: "g-sparse", evals_counter: "evals:g-sparse", quick: 2500, thorough: 80000, budget_q: 25, budget_t: 400, floor: 60, garbage: true, chunk: 250 },
@@ -2604,6 +2884,7 @@ fn run_roundtrip_case_inner(part: &str, i: u64, s: u64, thorough: bool, dir: &Pa
         "frame" => part_frame(i, s, r),
         "tcpcomp" => part_tcpcomp(i, s, thorough, r),
         "tt" => part_tt(s, r),
+        "validate" => part_validate(i, s, r),
         _ => r.inconclusive("unknown part"),
     }
 }
